@@ -75,6 +75,7 @@ type qRun struct {
 	Sort  []qSort `json:"sort"`
 	Limit int     `json:"limit"`
 	Skip  int     `json:"skip"`
+	IDs   []int   `json:"ids"` // ID restriction (limitIDs); empty = none
 }
 
 type qInput struct {
@@ -481,7 +482,17 @@ func TestVerifQuery(t *testing.T) {
 						}
 						sorting = append(sorting, query.Sorting{Key: qSortKeys[s.Key], Dir: d})
 					}
-					res, more, _, err := SearchStreams(ctx, lay.readers, nil, q.ReferenceTime, q.Conditions, nil, sorting, uint(run.Limit), uint(run.Skip), lay.tags, nil, false)
+					var limitIDs *bitmask.LongBitmask
+					if len(run.IDs) != 0 {
+						limitIDs = &bitmask.LongBitmask{}
+						for _, i := range run.IDs {
+							limitIDs.Set(uint(i))
+						}
+					}
+					if run.IDs == nil {
+						run.IDs = []int{}
+					}
+					res, more, _, err := SearchStreams(ctx, lay.readers, limitIDs, q.ReferenceTime, q.Conditions, nil, sorting, uint(run.Limit), uint(run.Skip), lay.tags, nil, false)
 					ids := []int{}
 					for _, s := range res {
 						ids = append(ids, int(s.ID()))
@@ -490,7 +501,7 @@ func TestVerifQuery(t *testing.T) {
 					if err != nil {
 						e = err.Error()
 					}
-					runs = append(runs, map[string]any{"layout": li, "sort": run.Sort, "limit": run.Limit, "skip": run.Skip, "res": ids, "more": more, "err": e})
+					runs = append(runs, map[string]any{"layout": li, "sort": run.Sort, "limit": run.Limit, "skip": run.Skip, "ids": run.IDs, "res": ids, "more": more, "err": e})
 				}
 			}
 			row["runs"] = runs
